@@ -93,6 +93,24 @@ def check(ctx):
     cl = X.call_nodes("self.closeConnection")
     ok = bool(pt) and bool(mp) and bool(cl) and any(X.dominated_by_edge(mp, t, "T") for t in pt)
     ctx.check(ok, "T3-reuse", vr, "serviceReps: persisted => requestant.makeParser(); else closeConnection", "a keep-alive connection is re-armed for the next request")
+    # re-arm once: while the finished responder stays `ended` serviceReps passes here on every cycle; a parser that is already
+    # reading the next request must not be replaced (it has consumed bytes from the receive buffer)
+    ctx.check(bool(mp) and all("requestant.parser is None" in X.facts(m) for m in mp), "T3-reuse", vr,
+              "serviceReps: makeParser() only when requestant.parser is None",
+              "a request arriving in several segments is torn: the half-finished parser is thrown away after it consumed the first "
+              "segment and the rest is parsed as a new request (fewer than N responses)")
+    # client side: which framing a response uses is decided by its headers alone
+    ph = ctx.cls("aio.http.clienting", "Respondent").own_method("parseHead")
+    PH = FuncView(ctx, ph)
+    cst = [n for n in PH.stores("chunked") if isinstance(n.ast, ast.Assign) and dotted(n.ast.targets[0]) == "self.chunked"]
+    okc = bool(cst)
+    for n in cst:
+        v = n.ast.value
+        if isinstance(v, ast.Constant) and v.value is False:
+            okc = okc and not PH.facts(n)      # only as the unconditional initial value
+    ctx.check(okc, "T3-reuse", ph, "Respondent.parseHead: .chunked is cleared only unconditionally (initial value), never for a status class",
+              "the server frames an empty 204/304 body as a chunked `0 CRLF CRLF`; a client that stops reading chunks for those statuses "
+              "leaves the terminator in the buffer and every later response on the connection is shifted")
     P = ctx.cls("aio.http.clienting", "Patron")
     tr = P.own_method("transmit")
     ctx.check("self.waited = True" in src(tr), "T3-reuse", tr, "Patron.transmit sets waited", "one response is awaited per transmitted request")
